@@ -187,8 +187,8 @@ func c15Check(prop, tier string) (*Outcome, error) {
 		return nil, err
 	}
 	var gs []*ag.Grammar
-	gs = append(gs, families.G(1, 22)...)
-	gs = append(gs, families.G(2, 22)...)
+	gs = append(gs, families.G(1, 26)...)
+	gs = append(gs, families.G(2, 26)...)
 	if tier == "thorough" {
 		gs = append(gs, families.G(3, 9)...)
 	} else {
